@@ -138,6 +138,9 @@ fifth batch (replace_pattern_in_structure: sample size, index map, deletion sets
   `obj.m(args)` as a statement            (`method_stmts={"m": lean}`) for a translated mutating method m of one row: every row of the attribute
                                           m assigns becomes `lean row … args` (`let obj_attr_i' := …`); DECLARED: obj is an Atoms
   `obj = obj.copy()` on an object parameter keeps what is declared about obj; any other re-binding of obj makes its attributes opaque
+  `for … : … break` updating one variable `Py.forBreak` / `Py.forBreakM?`: the body yields (state, did it break); loops may be nested inside a fold
+                                          body when they update the same variable
+  `norm(v) < d` (numpy.linalg.norm, 3-vector) `Py.normLt v d` = `0 < d ∧ ‖v‖² < d²` (exact: no square root); any other use of a norm is Unsupported
   `x % 1.0` on a float (also element-wise) `Py.fmod1 x` = `x - floor x` (exact on the rational; the divisor must be the literal 1.0 / 1)
   fragments also: `("stmt", "text then e")` with an EXPRESSION e (not only a name);
                   `("ifstmt", "text then e")` the value of expression e right after the unique `if` STATEMENT whose test contains text
@@ -755,6 +758,12 @@ class Fn:
                 fn = "Option.isNone" if isinstance(op, ast.Is) else "Option.isSome"
                 return V("(%s %s)" % (fn, a.term), BOOL, a.binds, a.refs)
             self.fail(node, "`is` is supported only between an optional parameter and None")
+        if a.ty == "norm" or b.ty == "norm":
+            if a.ty == "norm" and isinstance(op, ast.Lt) and b.ty in (NUM, DECLIT, INTLIT, NAT, INT):
+                b = self.coerce(node, b, NUM)
+                binds, refs = _join(a, b)
+                return V("(Py.normLt %s %s)" % (a.term, b.term), BOOL, binds, refs)
+            self.fail(node, "a norm may only be compared as `norm(v) < d`")
         ty = self.unify(node, [a.ty, b.ty])
         a, b = self.coerce(node, a, ty), self.coerce(node, b, ty)
         binds, refs = _join(a, b)
@@ -1214,6 +1223,14 @@ class Fn:
                 if a.ty == NUM:
                     return V("(Py.abs %s)" % a.term, NUM, a.binds, a.refs)
                 self.fail(node, "abs of %s" % (a.ty,))
+            if f.id == "norm" and len(args) == 1 and not node.keywords:
+                # numpy.linalg.norm of a 3-vector: only as the left operand of `<` (the square root is not a rational)
+                own = [n for n in self.tree.body if isinstance(n, ast.ImportFrom) and n.module == "numpy.linalg" and
+                       any(al.name == "norm" and al.asname is None for al in n.names)]
+                if not own or "norm" in self.locals_assigned:
+                    self.fail(node, "norm is not numpy.linalg.norm")
+                a = self.coerce(node, args[0], VEC3)
+                return V(a.term, "norm", a.binds, a.refs)
             if f.id == "round" and len(args) == 1:
                 # python `round(x)` of a float with ONE argument: an int, the nearest one, a tie to the even neighbour
                 a = args[0]
@@ -1420,7 +1437,7 @@ class Fn:
                 return self.block(conts[0], env, conts[1:], mode)
             if mode == "loop":
                 return ("end",)
-            if mode == "fold":
+            if mode in ("fold", "foldB"):
                 st = self.fold_state[-1]
                 return ("ret", env[st])
             if self.cfg.get("mutates") and self.ret is None:
@@ -1736,6 +1753,8 @@ class Fn:
                     self.fail(s, "a dispatch slice must return the result of a call")
                 return ("ret", V(_lean_str(ast.unparse(val.func)), STR))
             return self.ret_ir(s, env, mode)
+        if isinstance(s, ast.Break) and mode == "foldB":
+            return ("break", env[self.fold_state[-1]])          # the rest of the body and all later iterations are skipped
         if isinstance(s, ast.Raise):
             if not self.partial:
                 self.fail(s, "raise in a function declared total")
@@ -1835,7 +1854,7 @@ class Fn:
 
     def for_ir(self, s, rest, env, conts, mode):
         has_return = any(isinstance(n, ast.Return) for n in ast.walk(ast.Module(body=s.body, type_ignores=[])))
-        if s.orelse or mode in ("loop", "fold") or (self.partial and has_return):
+        if s.orelse or mode == "loop" or (mode in ("fold", "foldB") and has_return) or (self.partial and has_return):
             self.fail(s, "for loop in this position")
         it = self.ex(s.iter, env)
         if not (isinstance(it.ty, tuple) and it.ty[0] == "list") or it.binds:
@@ -1850,7 +1869,7 @@ class Fn:
                 isinstance(ety, tuple) and ety[0] == "tuple" and len(ety[1]) == len(s.target.elts):
             names = [self.lname(e.id) for e in s.target.elts]
             for e, nm, ty in zip(s.target.elts, names, ety[1]):
-                e2[e.id] = V(nm, ty, (), {nm})
+                e2[e.id] = static_param(nm, ty) if ty == VEC3 else V(nm, ty, (), {nm})
             pat = "(%s)" % ", ".join(names)
         else:
             self.fail(s, "for target")
@@ -1865,8 +1884,18 @@ class Fn:
     def fold_ir(self, s, rest, env, conts, mode, it, e2, pat, patnames):
         """a loop that updates ONE variable defined before it: `x = Py.forFold xs x (fun x pat => body)`"""
         changed = []
+
+        def own_breaks(stmts):            # `break` statements that end THIS loop (not one nested in it)
+            out = []
+            for n in stmts:
+                if isinstance(n, ast.Break):
+                    out.append(n)
+                elif isinstance(n, ast.If):
+                    out += own_breaks(n.body) + own_breaks(n.orelse)
+            return out
+        has_break = bool(own_breaks(s.body))
         for n in ast.walk(ast.Module(body=s.body, type_ignores=[])):
-            if isinstance(n, (ast.AugAssign, ast.Break, ast.Continue, ast.For, ast.While, ast.Raise)):
+            if isinstance(n, (ast.AugAssign, ast.Continue, ast.While, ast.Raise)):
                 self.fail(n, "statement %s in a loop body" % type(n).__name__)
             tgt = None
             if isinstance(n, ast.Assign) and len(n.targets) == 1:
@@ -1888,16 +1917,16 @@ class Fn:
         nm = self.lname(x)
         e2[x] = V(nm, init.ty, (), {nm})
         self.fold_state.append(x)
-        body = self.block(s.body, e2, [], "fold")
+        body = self.block(s.body, e2, [], "foldB" if has_break else "fold")
         self.fold_state.pop()
         e3 = dict(env)
         e3[x] = V(nm, init.ty, (), {nm})
-        return ("fold", nm, it, pat, patnames, init, body, self.block(rest, e3, conts, mode))
+        return ("foldB" if has_break else "fold", nm, it, pat, patnames, init, body, self.block(rest, e3, conts, mode))
 
     # -------------------------------------------------------------- IR -> Lean text
     def fv(self, ir):
         k = ir[0]
-        if k == "ret":
+        if k in ("ret", "break"):
             return set(ir[1].refs)
         if k in ("raise", "end"):
             return set()
@@ -1911,7 +1940,7 @@ class Fn:
             return ir[1].refs | (self.fv(ir[3]) - {ir[2]}) | self.fv(ir[4])
         if k == "for":
             return ir[1].refs | (self.fv(ir[4]) - ir[3]) | self.fv(ir[5])
-        if k == "fold":
+        if k in ("fold", "foldB"):
             return ir[2].refs | ir[5].refs | (self.fv(ir[6]) - ir[4] - {ir[1]}) | (self.fv(ir[7]) - {ir[1]})
         raise AssertionError(k)
 
@@ -1921,7 +1950,7 @@ class Fn:
         if k in ("bind", "raise"):
             return True
         return any(self.raises(x) for x in ir[1:] if isinstance(x, tuple) and x and isinstance(x[0], str) and
-                   x[0] in ("ret", "raise", "end", "let", "bind", "if", "matchopt", "for", "fold"))
+                   x[0] in ("ret", "raise", "end", "let", "bind", "if", "matchopt", "for", "fold", "foldB", "break"))
 
     def dce(self, ir):
         """drop `let`s nobody uses; in a slice also bindings nobody uses"""
@@ -1940,8 +1969,8 @@ class Fn:
             return ("matchopt", ir[1], ir[2], self.dce(ir[3]), self.dce(ir[4]))
         if k == "for":
             return ("for", ir[1], ir[2], ir[3], self.dce(ir[4]), self.dce(ir[5]))
-        if k == "fold":
-            return ("fold", ir[1], ir[2], ir[3], ir[4], ir[5], self.dce(ir[6]), self.dce(ir[7]))
+        if k in ("fold", "foldB"):
+            return (k, ir[1], ir[2], ir[3], ir[4], ir[5], self.dce(ir[6]), self.dce(ir[7]))
         return ir
 
     def emit(self, ir, ind, mode):
@@ -1949,7 +1978,11 @@ class Fn:
         k = ir[0]
         if k == "ret":
             t = ir[1].term
-            return [pad + {"total": t, "partial": "pure %s" % t, "loop": "some %s" % t, "foldM": "pure %s" % t}[mode]]
+            return [pad + {"total": t, "partial": "pure %s" % t, "loop": "some %s" % t, "foldM": "pure %s" % t,
+                           "foldB": "(%s, false)" % t, "foldBM": "pure (%s, false)" % t}[mode]]
+        if k == "break":
+            t = ir[1].term
+            return [pad + {"foldB": "(%s, true)" % t, "foldBM": "pure (%s, true)" % t}[mode]]
         if k == "raise":
             return [pad + "none  -- %s" % ir[1]]
         if k == "end":
@@ -1968,9 +2001,17 @@ class Fn:
         if k == "matchopt":
             return [pad + "match %s with" % ir[1].term, pad + "| some %s =>" % ir[2]] + self.emit(ir[3], ind + 1, mode) + \
                    [pad + "| none =>"] + self.emit(ir[4], ind + 1, mode)
+        if k == "foldB":
+            # a loop that may `break`: the body yields (state, did it break)
+            m = self.raises(ir[6])
+            if m and mode not in ("partial", "foldM", "foldBM"):
+                raise Unsupported("%s: the loop body of %s may raise but the function is declared total" % (self.path, self.cfg["py"]))
+            head = "let %s ← Py.forBreakM? %s %s (fun %s %s => do" if m else "let %s : " + lean_ty(ir[5].ty) + " := Py.forBreak %s %s (fun %s %s =>"
+            return [pad + head % (ir[1], ir[2].term, ir[5].term, ir[1], ir[3])] + self.emit(ir[6], ind + 2, "foldBM" if m else "foldB") + \
+                   [pad + "    )"] + self.emit(ir[7], ind, mode)
         if k == "fold":
             m = self.raises(ir[6])
-            if m and mode not in ("partial", "foldM"):
+            if m and mode not in ("partial", "foldM", "foldBM"):
                 raise Unsupported("%s: the loop body of %s may raise but the function is declared total" % (self.path, self.cfg["py"]))
             head = "let %s ← Py.forFoldM? %s %s (fun %s %s => do" if m else "let %s : " + lean_ty(ir[5].ty) + " := Py.forFold %s %s (fun %s %s =>"
             return [pad + head % (ir[1], ir[2].term, ir[5].term, ir[1], ir[3])] + self.emit(ir[6], ind + 2, "foldM" if m else "total") + \
@@ -2705,6 +2746,22 @@ def setDisjoint {α} [DecidableEq α] (a b : List α) : Bool := a.all (fun x => 
 /-- `x % 1.0` on a float: `x - floor(x)`, in `[0, 1)` (python / numpy `%` takes the sign of the divisor) -/
 def fmod1 (x : Rat) : Rat := x - (Rat.floor x : Rat)
 
+/-- `for x in xs: <body updating st, may break>`: the body yields the new state and whether it executed `break` -/
+def forBreak {α σ} : List α → σ → (σ → α → σ × Bool) → σ
+  | [], st, _ => st
+  | x :: xs, st, f => if (f st x).2 then (f st x).1 else forBreak xs (f st x).1 f
+/-- the same when the body may raise -/
+def forBreakM? {α σ} : List α → σ → (σ → α → Option (σ × Bool)) → Option σ
+  | [], st, _ => some st
+  | x :: xs, st, f =>
+    match f st x with
+    | none => none
+    | some (st', true) => some st'
+    | some (st', false) => forBreakM? xs st' f
+
+/-- `numpy.linalg.norm(v) < d` for a 3-vector: `d > 0` and `‖v‖² < d²` (no square root: exact on rationals) -/
+def normLt (v : Vec3) (d : Rat) : Bool := decide (0 < d) && decide (v.x * v.x + v.y * v.y + v.z * v.z < d * d)
+
 '''
 assert PRELUDE.count("end Mofun.Generated.Py\n") == 1
 PRELUDE = PRELUDE.replace("end Mofun.Generated.Py\n", PRELUDE5 + "end Mofun.Generated.Py\n")
@@ -2748,6 +2805,11 @@ FUNCTIONS += [
          inputs={"cell": MAT3}, abstractions={"new_atoms.positions": ("pos", VEC3)}, ret=VEC3,
          doc=" (FRAGMENT for ONE atom: the wrap into the unit cell, `(new_atoms.positions.dot(np.linalg.inv(cell)) % 1.0).dot(cell)`; "
              "the inverse is expanded as adjugate / determinant)"),
+    dict(file="mofun/atoms.py", py="find_unchanged_atom_pairs", lean="findUnchangedAtomPairs", partial=True,
+         params=[("max_delta", NUM)], locals={"match_pairs": LIST(TUP(NAT, NAT))},
+         objattrs={"orig_structure": {"positions": LIST(VEC3), "elements": LIST(STR)},
+                   "final_structure": {"positions": LIST(VEC3), "elements": LIST(STR)}}, ret=LIST(TUP(NAT, NAT)),
+         doc="; the structures are given by their position rows and their per-atom element lists (`Atoms.elements`); `none` = IndexError"),
     dict(_REPL, lean="replaceEmptyBranch", fragment=[("if", "len(replace_pattern)"), "test"], params=[], inputs={},
          objattrs={"replace_pattern": {"__len__": NAT}}, ret=BOOL,
          doc=" (FRAGMENT: is the replacement empty, i.e. is this a pure deletion)"),
